@@ -296,7 +296,7 @@ var StructTypes = []reflect.Type{
 	T(CN1{}), T(CN2{}), T(NMapHolder{}),
 	T(ManyF{}), T(ManyL{}),
 	T(Node{}), T(FNode{}), T(Ping{}), T(Pong{}), T(ENode{}), T(DeepNil{}),
-	T(MapAndLists{}), T(Wrap{}), T(WrapList{}), T(PtrTime{}), T(Named{}), T(SelfAny{}), T(SelfAnyList{}), T(PtrConts{}), T(MutA{}), T(MutB{}), T(MpKeyStruct{}), T(MutGraph{}), T(NonASCII{}), T(RecConts{}), T(AmpTop{}), T(AmpN{}), T(FloatMix{}), T(Forest{}), T(CaseTwins{}), T(Bags{}), T(PtrNamed{}), T(BaseEnt{}), T(PlainEnt{}), T(AccountEnt{}), T(PtrBaseEnt{}), T(Ents{}),
+	T(MapAndLists{}), T(Wrap{}), T(WrapList{}), T(PtrTime{}), T(Named{}), T(SelfAny{}), T(SelfAnyList{}), T(PtrConts{}), T(MutA{}), T(MutB{}), T(MpKeyStruct{}), T(MutGraph{}), T(NonASCII{}), T(RecConts{}), T(AmpTop{}), T(AmpN{}), T(FloatMix{}), T(Forest{}), T(CaseTwins{}), T(Bags{}), T(PtrNamed{}), T(NonASCIIFirst{}), T(IntMix{}), T(Empty{}), T(BaseEnt{}), T(PlainEnt{}), T(AccountEnt{}), T(PtrBaseEnt{}), T(Ents{}),
 }
 
 // TypeByName finds a zoo struct type.
@@ -664,6 +664,32 @@ type Drawing struct {
 	Layers []Layer
 	Top    *Layer
 }
+
+// NonASCIIFirst: exported fields whose names BEGIN with a non-ASCII upper-case letter (the first letter is what
+// encoder and decoder treat specially), scalars and edges of a graph alike.
+type NonASCIIFirst struct {
+	Ärger int32
+	Étage string
+	Ωmega []*Inner
+	Élan  *Inner
+	Öl    map[string]*Inner
+	Z     int32
+}
+
+// IntMix: a typed map in front of list types of different integer widths, the widest twice (list and map type
+// names share one numbering on the wire).
+type CounterMap map[string]int32
+
+type IntMix struct {
+	Counters CounterMap
+	A        []int16
+	B        []int64
+	C        []int64
+	D        []int16
+}
+
+// Empty has no fields at all: every field of a wire definition is unknown to it.
+type Empty struct{}
 
 // PtrNamed declares HessianCodecName on the pointer receiver: a value of the type does not have the method,
 // a pointer to it does.
